@@ -479,6 +479,12 @@ def run_psr_walk(case):
         cmpmask = 0xFFFFFFFF
         if unpred:
             cmpmask = ~0x1F & 0xFFFFFFFF
+            pm = post_cpsr & 0x1F
+            if pm != cur and ((not secure and pm == 0x16) or (not secure and pm == 0x11 and rfr) or (pm == 0x1a and (secure or cur != 0x1a))):
+                # modes that exist in this configuration but are reserved for the other security state / for Hyp entries: illegal here
+                b.violate('psr.model', site, 'bad_mode_installed', 'UNPREDICTABLE %s in %s mode %#x (NSACR.RFR=%d) installed mode %#x, which is illegal in this state' % (
+                    k, 'Secure' if secure else 'Non-secure', cur, rfr, pm))
+                break
             if CW.bad_mode(post_cpsr & 0x1F, sec, virt):
                 b.violate('psr.model', site, 'bad_mode_installed', 'UNPREDICTABLE %s left reserved mode %#x' % (k, post_cpsr & 0x1F))
                 break
